@@ -54,6 +54,8 @@ def run(ctx, run):
     _continuity(ctx, run, P.need("demux_ts_packet", UNIT))
     _frame_reset(ctx, run)
     _reset_complete(ctx, run, fs)
+    _skip_before_lookahead(ctx, run, P.need("demux_pes_packet", UNIT))
+    _unit_lengths(ctx, run, P.need("extract_data_units", UNIT))
     from .. import sweep
     sweep.run(ctx, run, [UNIT], SWEEP_TRUSTED, 20, 1)
 
@@ -467,3 +469,98 @@ def _reset_complete(ctx, run, fs):
                           "how the first data unit of the next frame is classified (new frame / same frame), so the output depends on "
                           "more than the bytes of that frame - with last_data_unit_id the demultiplexer reports empty frames forever"
                           % (fld, ", ".join(sorted(writers[fld]))), "%s:%d" % (rf.file, rf.line), witness={"field": fld})
+
+
+def _skip_before_lookahead(ctx, run, f):
+    """After a PES packet was handled, `skip` must receive the packet's look-ahead (its payload size)
+    *before* look-ahead is reset to the header size."""
+    run.touch(f)
+    n = 0
+    for bid in f.rpo():
+        evs = flow.events(f, bid)
+        for k, i in enumerate(evs):
+            e = f.exprs[i]
+            if e["k"] == "asg" and e["op"] == "=" and ex.pretty(f, e["c"][0]).endswith("pes_wrap.skip") \
+                    and ex.pretty(f, e["c"][1]).endswith("pes_wrap.lookahead"):
+                n += 1
+                an = ctx.analysis(f)
+                st = an.state_before_expr(i)
+                v = an.eval(st, e["c"][1]) if st is not None else (None, None)
+                key = "RF-DEP:demux_pes_packet:skip-takes-payload-lookahead"
+                if v[0] is not None and v[0] == v[1]:
+                    run.violation("RF-DEP", key, "`%s` copies a look-ahead that was just reset to the constant %d: only the header "
+                                  "size is skipped, the rest of the packet's payload is scanned for start codes and a payload that "
+                                  "contains 00 00 01 xx derails the demultiplexer" % (ex.pretty(f, i), v[0]), ex.loc(f, i),
+                                  witness={"value": v[0]})
+                else:
+                    run.holds("RF-DEP", key, "`%s` reads the look-ahead of the packet just handled (%s), before it is reset"
+                              % (ex.pretty(f, i), v), ex.loc(f, i))
+    run.floor("skip := lookahead sites in demux_pes_packet", n, 1)
+
+
+def _unit_lengths(ctx, run, f):
+    """In every case of the data unit switch the `data_unit_length < 1 + k` rejection admits only
+    units that contain every byte p[..] the case reads (p[0] id, p[1] length, data from p[2])."""
+    run.touch(f)
+    n = 0
+    sw = [bid for bid, b in f.blocks.items() if b.term and b.term.get("kind") == "SwitchStmt"]
+    for bid in sw:
+        for succ, lab in f.edges(bid):
+            if not isinstance(lab, tuple):
+                continue
+            # region of this case: blocks reachable from the label up to the next switch iteration
+            region = flow.reach_from(f, succ, avoid=(bid,))
+            minlen = None
+            maxidx = None
+            for b2 in region:
+                t = f.blocks[b2].term
+                if t and "cond" in t:
+                    c = f.exprs[ex.skip(f, t["cond"])]
+                    while c["k"] == "cast" or (c["k"] == "call" and c.get("callee") == "__builtin_expect"):
+                        c = f.exprs[ex.skip(f, c["c"][0])]
+                    if c["k"] == "bin" and c["op"] == "<" and "data_unit_length" in ex.pretty(f, c["c"][0]):
+                        k = ex.const(f, c["c"][1])
+                        if k is not None and flow.dominates(f, succ, b2):
+                            minlen = k if minlen is None else max(minlen, k)
+            if minlen is None:
+                continue
+            # constant indices read through p in blocks dominated by this case label only
+            for i, e in enumerate(f.exprs):
+                if e["k"] != "idx":
+                    continue
+                pos = flow.elem_pos(f).get(i)
+                if pos is None or pos[0] not in region or not flow.dominates(f, succ, pos[0]):
+                    continue
+                b = f.exprs[ex.skip(f, e["c"][0])]
+                while b["k"] == "cast":
+                    b = f.exprs[ex.skip(f, b["c"][0])]
+                c = ex.const(f, e["c"][1])
+                if b["k"] == "ref" and b.get("name") == "p" and c is not None:
+                    maxidx = c if maxidx is None else max(maxidx, c)
+            for i, e in enumerate(f.exprs):
+                if e["k"] == "call" and e.get("callee") == "memcpy" and len(e["c"]) >= 3:
+                    pos = flow.elem_pos(f).get(i)
+                    if pos is None or pos[0] not in region or not flow.dominates(f, succ, pos[0]):
+                        continue
+                    src = ex.pretty(f, e["c"][1])
+                    ln = ex.const(f, e["c"][2])
+                    if src.startswith("(p + ") and ln is not None:
+                        try:
+                            off = int(src[5:].rstrip(")"))
+                            maxidx = max(maxidx or 0, off + ln - 1)
+                        except ValueError:
+                            pass
+            if maxidx is None:
+                continue
+            n += 1
+            key = "RF-IVL:extract_data_units:unit-length:%d" % lab[1]
+            # a unit of data_unit_length L occupies p[0 .. 1 + L]
+            if maxidx <= 1 + minlen:
+                run.holds("RF-IVL", key, "data unit 0x%02X: length >= %d is required, the highest byte read is p[%d]"
+                          % (lab[1], minlen, maxidx), "%s:%d" % (f.file, f.line))
+            else:
+                run.violation("RF-IVL", key, "data unit 0x%02X: units of length %d pass the `data_unit_length < %d` test but the case "
+                              "reads p[%d], %d byte(s) past such a unit: a truncated unit is delivered as a line and, at the end "
+                              "of the caller's buffer, read past it" % (lab[1], minlen, minlen, maxidx, maxidx - 1 - minlen),
+                              "%s:%d" % (f.file, f.line), witness={"unit": lab[1], "min_length": minlen, "max_index": maxidx})
+    run.floor("data unit cases with a length guard", n, 4)
